@@ -1372,6 +1372,28 @@ fn c01(r: &mut Rng, fonts: &[FontInfo], n: u64, tr: &mut Option<std::fs::File>, 
                 t.push(m1);
                 req.text = t.into_iter().enumerate().map(|(j, c)| (c, j as u32)).collect();
             }
+            7 => {
+                // one syllable of several hundred glyphs: (consonant, virama) x k, consonant [, vowel sign] - the syllabic
+                // shapers keep per-glyph positions of a syllable in one byte
+                const SYL: &[(u32, u32, u32, &str)] = &[(0x0915, 0x094D, 0x093F, "Deva"), (0x0995, 0x09CD, 0x09BF, "Beng"), (0x0A95, 0x0ACD, 0x0ABF, "Gujr"), (0x0B15, 0x0B4D, 0x0B3F, "Orya"),
+                    (0x0B95, 0x0BCD, 0x0BBF, "Taml"), (0x0C15, 0x0C4D, 0x0C3F, "Telu"), (0x0C95, 0x0CCD, 0x0CBF, "Knda"), (0x0D15, 0x0D4D, 0x0D3F, "Mlym"), (0x0D9A, 0x0DCA, 0x0DD2, "Sinh"),
+                    (0x1780, 0x17D2, 0x17B7, "Khmr"), (0x1000, 0x1039, 0x102D, "Mymr"), (0x1B13, 0x1B44, 0x1B36, "Bali"), (0xA98F, 0xA9C0, 0xA9B6, "Java")];
+                let cands: Vec<&(u32, u32, u32, &str)> = SYL.iter().filter(|x| fi.chars.contains(&x.0)).collect();
+                let (c, h, m, sc) = if cands.is_empty() { SYL[0] } else { **r.pick(&cands) };
+                let k = *r.pick(&[63usize, 64, 127, 128, 129, 200, 255, 256, 300]);
+                let mut t: Vec<u32> = Vec::new();
+                for _ in 0..k {
+                    t.push(c);
+                    t.push(h);
+                }
+                t.push(c);
+                if r.chance(1, 2) {
+                    t.push(m);
+                }
+                req.text = t.into_iter().enumerate().map(|(j, c)| (c, j as u32)).collect();
+                req.script = Some(sc.to_string());
+                req.dir = None;
+            }
             2 => req.features = vec![format!("aalt={}", r.below(80000)), "rand=7".into()],
             3 => req.features = vec![format!("ss01[{}:{}]", r.below(10), r.below(10)), "kern[3:1]=0".into()],
             4 => req.nf_vs = Some(r.below(70000) as u32),
